@@ -146,16 +146,37 @@ def busy_branch(m: Model):
 
 
 def _attempt_cases(fn, stmt, iv: str, mr: str, expect) -> list[str]:
-    """Rows (i, max_retry) with 0 <= i <= max_retry <= 2 on which stmt is reached although expect says no, or the other way round (only the
-    tests that read i / max_retry take part)."""
-    from sa.util import path_condition
+    """Rows (i, max_retry) with 0 <= i <= max_retry <= 2 on which stmt is reached although expect says no, or the other way round. Tests that read
+    i / max_retry take part, and so do tests on locals whose value is chosen under such a test (`w = wait if i < max_retry else None; if w is not None`):
+    those locals are resolved per row through their assignments."""
+    from sa.util import path_condition, choice_table
     from sa import miniterp
-    conds = [(t, p) for t, p in path_condition(fn.node, stmt) if {x.id for x in ast.walk(t) if isinstance(x, ast.Name)} & {iv, mr}]
+    from sa.model import AnalysisError
+    all_conds = path_condition(fn.node, stmt)
+
+    def names(t):
+        return {x.id for x in ast.walk(t) if isinstance(x, ast.Name)}
+    direct = [(t, p) for t, p in all_conds if names(t) & {iv, mr}]
+    # locals decided by i / max_retry
+    derived: dict[str, None] = {}
+    for t, p in all_conds:
+        for nm in names(t) - {iv, mr}:
+            defs = [a for a in ast.walk(fn.node) if isinstance(a, ast.Assign) and len(a.targets) == 1 and isinstance(a.targets[0], ast.Name) and a.targets[0].id == nm]
+            if defs and any(names(c[0]) & {iv, mr} for a in defs for c in path_condition(fn.node, a)):
+                derived[nm] = None
+    indirect = [(t, p) for t, p in all_conds if names(t) & set(derived) and not names(t) & {iv, mr}]
     bad = []
     for b in range(3):
         for a in range(b + 1):
             env = {iv: a, mr: b}
-            taken = all(bool(miniterp.eval_expr(t, dict(env))) == p for t, p in conds)
+            for nm in derived:
+                src = choice_table(fn.node, nm, {iv: [a], mr: [b]})[(a, b)]
+                if src is None:
+                    raise AnalysisError(f"{nm} has no value for {iv}={a}, {mr}={b}")
+                e_ = ast.parse(src, mode="eval").body
+                unknown = {x: "VALUE" for x in names(e_) - set(env)}
+                env[nm] = miniterp.eval_expr(e_, {**env, **unknown})
+            taken = all(bool(miniterp.eval_expr(t, dict(env))) == p for t, p in direct + indirect)
             if taken != bool(expect(env)):
                 bad.append(f"{iv}={a}, {mr}={b} -> {'taken' if taken else 'skipped'}")
     return bad
